@@ -51,6 +51,18 @@ def specChain (c : RestConf) : List Layer :=
 def specTrace (c : RestConf) : List Event :=
   (specChain c).map Event.enter ++ (specChain c).reverse.map Event.exit
 
+/-- logging is an observer: the chain returns what it returns without logging — with ONE exception,
+    a response that comes together with an error is not passed on (`return nil, err`).
+    Neither C19 ("wrap the transport … logging outside all of them": order only) nor C10 is violated by
+    that: a (response, error) pair breaks the RoundTripper contract, and `http.Client.Do` drops the
+    response of such a pair itself before the generated code sees it — recorded, not a finding. -/
+def dropRespOnErr : RTOut → RTOut
+  | .both => .fail
+  | o => o
+
+def specRoundTrip (c : RestConf) (o : RTOut) : RTOut :=
+  if c.enableLogging then dropRespOnErr o else o
+
 /-- "the generated client's HTTP timeout equals the configured timeout" -/
 def specClientTimeout (c : RestConf) : Int := c.timeout
 
